@@ -6,7 +6,8 @@ HERE = os.path.dirname(os.path.dirname(os.path.abspath(__file__)))
 HIST = (" Histories are part of every schedule: faulted deliveries are preceded and followed by the genuine one, sessions reuse keys/objects, "
         "each run executes in a fresh thread of a worker process and a violation that needs state from earlier operations is replayed as the whole run "
         "(or as everything its worker process executed before it). Where two library calls are made by two simulated caller threads (`par` op), "
-        "control passes between them only at RNG draws and at std::sync primitives (std facade sim/simstd), in an order that is part of the schedule.")
+        "control passes between them only at RNG draws and at std::sync primitives (std facade sim/simstd), in an order that is part of the schedule. "
+        "The thorough tier adds a Miri stage (miri/): two caller threads per scenario under Miri's seeded scheduler and data-race detector.")
 
 TRUST = ("Trusted base: the reference models in sim/src/refmodel (validated before every check against the standards' "
          "published examples; exit 2 if a self-test fails), the simulator itself, and sampling of keys/IDs/messages/nonces "
